@@ -64,7 +64,12 @@ class Boom(Exception):
     pass
 
 
-EXC = {"Boom": Boom, "KeyboardInterrupt": KeyboardInterrupt, "SystemExit": SystemExit}
+EXC = {"Boom": Boom, "KeyboardInterrupt": KeyboardInterrupt, "SystemExit": SystemExit,
+       # the statement says "through an exception" - of ANY class: what the application's own code raises inside the block
+       "FileNotFoundError": FileNotFoundError, "TimeoutError": TimeoutError, "BrokenPipeError": BrokenPipeError, "OSError": OSError,
+       "InterruptedError": InterruptedError, "ValueError": ValueError, "StopIteration": StopIteration, "GeneratorExit": GeneratorExit,
+       "EOFError": EOFError, "termios.error": __import__("termios").error, "RecursionError": RecursionError, "MemoryError": MemoryError}
+EXTRA_EXCS = [k for k in EXC if k not in ("Boom", "KeyboardInterrupt", "SystemExit")]
 
 
 # ----------------------------------------------------------------------------------- pty environment (child process)
@@ -853,6 +858,14 @@ def cases(tier, seed):
                             if not thorough and thread == "worker" and e != "Boom":
                                 continue
                             add(scenario="single", context=name, flags=flags, initial=initial, thread=thread, body=body, prefix=p, exc=e)
+    # (2b) the class of the exception that leaves the block: OSError family, control-flow exceptions, resource errors
+    for name, flags in CONFIGS:
+        body = _body_for(name, 0)
+        for k, e in enumerate(EXTRA_EXCS):
+            if not thorough and (k + len(name)) % 2 and e not in ("OSError", "FileNotFoundError", "StopIteration"):
+                continue
+            for p in (0, len(body)):
+                add(scenario="single", context=name, flags=flags, initial=initials[0], thread="main", body=body, prefix=p, exc=e)
     # (3) repeated use
     for name, flags in CONFIGS:
         for reuse in (False, True):
